@@ -74,7 +74,8 @@ IMPORTS = {
     "C26": [("C25", {"pdu-tables", "item-framing", "chunk-length"}, "P-DATA PDUs and their PDV items are framed as the reader parses them", 117, None)],
     "C28": [("C25", {"pdu-tables", "item-framing"}, "the association PDUs the acceptor reads and writes are coded as the peer codes them", 114, None)],
     "C29": [("C25", {"pdu-tables", "item-framing"}, "both peers code the association PDUs alike", 114, None)],
-    "C30": [("C25", {"pdu-tables"}, "release / abort PDUs are coded as the peer decodes them", 91, None)],
+    "C30": [("C25", {"pdu-tables"}, "release / abort PDUs are coded as the peer decodes them", 91, None),
+            ("C29", {"pdu-roles"}, "release and abort go out through send(), limited by the peer's maximum as negotiated", 20, None)],
     "C32": [("C27", {"wire-loop"}, "the SCP receives every PDU whatever the segmentation", 39, None)],
     "C33": [("C26", {"header-setup", "writer-siblings", "async-state", "writer-max-from-peer"}, "the SCU's data set goes out through the P-DATA writer", 28, None)],
 }
